@@ -242,7 +242,12 @@ def callee_name(e):
         return None
     fn = e.get("fn")
     if fn:
-        return fn.get("qn") or fn.get("n")
+        qn = fn.get("qn") or fn.get("n")
+        n = fn.get("n") or ""
+        # C API seen from C++ (`namespace mpt { extern "C" ... }`): same function, plain name
+        if qn and qn == "mpt::" + n and (n.startswith("mpt_") or n.startswith("_mpt_")):
+            return n
+        return qn
     return None
 
 
